@@ -1,2 +1,3 @@
 import BklProofs.Facts.State
 #print axioms Bkl.F12_no_hidden_state
+#print axioms Bkl.F13_tools_stateless
